@@ -9,6 +9,7 @@ import z3
 from symnp import core, harness, load
 from symnp.arr import SymArray, symarr
 from symnp.core import PI, SV
+from symnp.shim import NP
 
 ID = "C13"
 META = {
@@ -21,7 +22,7 @@ META = {
               "ToOEvent.get_sun / get_moon / moon_phase_angle -> symbolic arrays (one symbol per time)"],
     "assumptions": ["REAL mode with algebraised trigonometry (angles as unit-circle points, monotonicity of cos/sin on principal branches)", "0 < angle_from_limb < horizon nadir angle; detector altitude > 0"],
 }
-LEDGER = {"quick": 232, "thorough": 400}
+LEDGER = {"quick": 248, "thorough": 420}
 
 
 class TimeStub:
@@ -178,7 +179,11 @@ def cut_run(N):
             return arr.a[time.ids[0]] if time.isscalar else SymArray(arr.a[list(time.ids)].copy(), "float")
 
         def body(arr):
-            return lambda time: type("B", (), {"alt": type("A", (), {"rad": at(arr, time)})()})()
+            def f(time):
+                r_ = at(arr, time)
+                return type("B", (), {"alt": type("A", (), {"rad": r_, "deg": NP.degrees(r_)})()})()
+
+            return f
 
         t.get_sun, t.get_moon = body(sun), body(moon)
         t.moon_phase_angle = lambda time: type("Q", (), {"value": at(ph, time)})()
@@ -226,6 +231,51 @@ def _throw_sampler(N):
     return s
 
 
+TIMES_NS = (1, 2, 3, 7, 10, 49, 61, 100)
+
+
+def times_run(N):
+    """The real generate_times(N) for a concrete count N (the smallest N for which 1/(1/N) > N in IEEE double is 49)
+    with symbolic start time and duration: N instants, instant i == t0 + T i/N, and -- when the implementation builds
+    the grid with a float-step np.arange -- the floating-point side condition that NumPy's IEEE length
+    ceil((stop - start)/step) equals the exact length for EVERY duration in [1, 1e7] s (QF_FP query on the operations
+    the code performed, taken from the EUF shadow of the arange operands)."""
+
+    def run(C):
+        C.euf = True
+        ns = _load()
+        G = ns["RegionGeomToO"]
+        g = object.__new__(G)
+        T, t0 = z3.Real("T_obs"), z3.Real("t0")
+        C.assume(T >= 1, T <= 10**7)
+        g.sourceOBSTime = SV(t=T)
+        g.too_source = type("Too", (), {"eventtime": TimeStub(SV(t=t0), "isot")})()
+        ev0 = len(getattr(C, "arange_calls", []))
+        out = g.generate_times(N)
+        tv = out.value
+        claims = {f"generate_times({N}): exactly {N} instants": z3.BoolVal(len(tv) == N)}
+        if len(tv) == N:
+            claims[f"generate_times({N}): instant i == t0 + T i/{N} for every i (equally spaced, first at t0, last before t0 + T)"] = z3.And(
+                *[SV.of(tv[i]).term() == t0 + T * core.rv(Fr(i, N)) for i in range(N)])
+        info = {}
+        for ev in getattr(C, "arange_calls", [])[ev0:]:
+            r, mdl, dt = harness.arange_fp_check(ev, {"T_obs": (1.0, 1e7), "t0": (0.0, 1e9)}, timeout_ms=120000)
+            nm = f"generate_times({N}): the float-step range has its exact length {ev[4]} in IEEE arithmetic for every duration in [1, 1e7] s"
+            if r == "sat":
+                nm += f" [counterexample T_obs={mdl.get('T_obs', 86400.0)!r}]"
+            info[nm] = {"verdict": r, "model": mdl, "time_s": round(dt, 2)}
+            if r == "unknown":
+                raise core.HarnessError(f"floating-point side condition of np.arange undecided: {mdl}")
+            claims[nm] = z3.BoolVal(r == "unsat")
+        return harness.Out(claims=claims, inputs={"T_obs": T, "t0": t0}, info=info)
+
+    return run
+
+
+def job_times(N, tier):
+    return harness.run_job(f"RegionGeomToO.generate_times(int N={N})", times_run(N), timeout_ms=30000, twin=False)
+
+
 def job_throw(N, tier):
     return harness.run_job(f"RegionGeomToO.throw(N={N})", throw_run(N), timeout_ms=120000 if tier == "quick" else 600000, second=(tier == "thorough"), prune_timeout_ms=5000,
                            witness=(_throw_sampler(N), 120))
@@ -237,7 +287,8 @@ def job_cut(N, tier):
 
 def jobs(tier, seed):
     n = 2 if tier == "quick" else 3
-    return [("throw", "job_throw", {"N": n, "tier": tier}), ("throw1", "job_throw", {"N": 1, "tier": tier}), ("cut", "job_cut", {"N": 2, "tier": tier})]
+    return [("throw", "job_throw", {"N": n, "tier": tier}), ("throw1", "job_throw", {"N": 1, "tier": tier}), ("cut", "job_cut", {"N": 2, "tier": tier})] + [
+        (f"times{k}", "job_times", {"N": k, "tier": tier}) for k in TIMES_NS]
 
 
 def replay(v):
@@ -261,8 +312,8 @@ def replay(v):
             k = np.rint((np.atleast_1d(time.jd) - times[0].jd) * 24).astype(int)
             return A(n)[k] if not time.isscalar else A(n)[k][0]
 
-        t.get_sun = lambda time: type("B", (), {"alt": type("A", (), {"rad": at("sun", time)})()})()
-        t.get_moon = lambda time: type("B", (), {"alt": type("A", (), {"rad": at("moon", time)})()})()
+        t.get_sun = lambda time: type("B", (), {"alt": type("A", (), {"rad": at("sun", time), "deg": np.degrees(at("sun", time))})()})()
+        t.get_moon = lambda time: type("B", (), {"alt": type("A", (), {"rad": at("moon", time), "deg": np.degrees(at("moon", time))})()})()
         t.moon_phase_angle = lambda time: type("Q", (), {"value": at("phase", time)})()
         t.sun_alt_cut, t.moon_alt_cut, t.MoonMinPhaseAngleCut = m.get("sun_alt_cut", 0.0), m.get("moon_alt_cut", 0.0), m.get("moon_min_phase_angle_cut", 0.0)
         got = np.broadcast_to(t.sun_moon_cut(times), (N,))
@@ -270,6 +321,29 @@ def replay(v):
         if not np.array_equal(np.asarray(got, dtype=bool), ref):
             return {"reproduced": True, "key": "sun_moon_cut differs from the documented dark-sky condition", "detail": f"got {np.asarray(got).tolist()}, reference {ref.tolist()} at {m}"}
         return {"reproduced": False, "key": None, "detail": "real cut agrees with the reference"}
+    if job.startswith("RegionGeomToO.generate_times(int N="):
+        import re
+
+        from astropy.time import Time
+
+        from nuspacesim.simulation.geometry.region_geometry import RegionGeomToO
+
+        N = int(job.split("N=")[1].rstrip(")"))
+        mt = re.search(r"T_obs=([0-9.eE+-]+)", ob)
+        cands = ([float(mt.group(1))] if mt else []) + [float(m.get("T_obs", 86400.0)), 86400.0, 1.0]
+        for T in cands:
+            g = object.__new__(RegionGeomToO)
+            g.sourceOBSTime = T
+            g.too_source = type("T", (), {"eventtime": Time("2022-06-02T01:00:00", format="isot", scale="utc")})()
+            t = g.generate_times(N)
+            dt = (t - g.too_source.eventtime).sec
+            want = np.arange(N) / N * T
+            if len(dt) != N:
+                return {"reproduced": True, "key": "generate_times(N) does not return N instants", "detail": f"N = {N}, duration {T!r} s: {len(dt)} instants (last at t0 + {dt[-1]!r} s; the window is [t0, t0 + T))"}
+            if not np.allclose(dt, want, rtol=1e-12, atol=1e-9 * T):
+                k = int(np.argmax(np.abs(dt - want)))
+                return {"reproduced": True, "key": "generate_times(N): instants are not t0 + T i/N", "detail": f"N = {N}, duration {T!r} s: instant {k} at t0 + {dt[k]!r} s, expected {want[k]!r} s"}
+        return {"reproduced": False, "key": None, "detail": f"N = {N}: N equally spaced instants for durations {cands}"}
     if job.startswith("RegionGeomToO.throw"):
         from astropy.time import Time
 
@@ -320,6 +394,6 @@ def replay(v):
 
 MANIFEST_ENTRY = {
     "level_text": "Bounded symbolic execution of the real RegionGeomToO.__call__/throw/generate_times/get_beta_angle/get_path_length/event_mask with the source altitude at each of N=2 (quick) / 3 (thorough) instants, the detector altitude, the angle from the limb, start time and duration symbolic: nlsat proves the instants are t0 + T i/N, that an instant is kept exactly when the source is occulted and its emergence angle is below min(42 deg, limb limit), the two triangle relations and cos(beta) = (r/R) sin(alpha) for the kept path length, and the alignment of the returned (beta, alpha, L, times) for every horizon/volume keep pattern; the real ToOEvent.sun_moon_cut is proved equal to the documented Boolean condition and monotone in each threshold.",
-    "level_note": "The ephemeris stubs are functions of the time they are asked for (a cut evaluated at one representative time is a counterexample). NOT covered: the IEEE length of a float-step np.arange for N >= 49 (REAL mode, N <= 3). REAL arithmetic with algebraised trigonometry; astropy coordinate transforms / ephemerides are stubbed by free symbols per instant (their correctness is outside the claim); that the cut applies to optical only and on the kept times is established in C03.",
+    "level_note": "The ephemeris stubs are functions of the time they are asked for (a cut evaluated at one representative time is a counterexample). The time grid is additionally examined for N in {1,2,3,7,10,49,61,100} with symbolic start and duration: when the implementation builds it with a float-step np.arange, the IEEE length ceil((stop-start)/step) is compared with the exact length by a QF_FP query (cvc5 binary; z3 fallback) over every duration in [1, 1e7] s, built from the operations the code performed (EUF shadow of the operands); other N are outside. REAL arithmetic with algebraised trigonometry; astropy coordinate transforms / ephemerides are stubbed by free symbols per instant (their correctness is outside the claim); that the cut applies to optical only and on the kept times is established in C03.",
     "technique": "symbolic execution of the real NumPy source (DFS over keep patterns) + z3 qfnra-nlsat with algebraised trigonometry",
 }
